@@ -107,6 +107,10 @@ pub fn one_input<P: Prop>(data: &[u8]) {
                 }
             }
         }
+        Err(f) if f.sig == "infra" => {
+            // the harness's own plumbing failed (scratch file): not a verdict, the input is skipped
+            return;
+        }
         Err(f) => {
             let known_path = std::env::var("VERIF_KNOWN").unwrap_or_else(|_| "/verif/KNOWN_FINDINGS.txt".to_string());
             let known = engine::load_known(std::path::Path::new(&known_path), P::ID);
